@@ -10,7 +10,7 @@ Section Model.
   Context {F : Type} `{Num F}.
 
   Definition vzero (n : nat) : list F := repeat n0 n.
-  Definition vadd (a b : list F) : list F := map (fun ab => nadd (fst ab) (snd ab)) (combine a b).
+  Definition vadd (a b : list F) : list F := map (fun ab => nnorm (nadd (fst ab) (snd ab))) (combine a b).
   Definition vsub (a b : list F) : list F := map (fun ab => nsub (fst ab) (snd ab)) (combine a b).
   Definition vscale (c : F) (a : list F) : list F := map (nmul c) a.
   Definition vdot (a b : list F) : F := fold_right (fun ab acc => nadd (nmul (fst ab) (snd ab)) acc) n0 (combine a b).
